@@ -15,7 +15,7 @@ func init() {
 		ID:   "C19",
 		Rule: "encoder: one case = one valid VLA (stream count, RID, subset of the stream x spatial slots, temporal-layer pattern, bitrate pattern, resolution on/off) marshalled, compared byte for byte with the reference encoder, unmarshalled into a fresh and a used receiver; invalid values must be rejected; decoder: one case = one byte string (short strings, truncations and single-byte mutations of valid encodings) into a fresh and a used receiver; non-trivial = allocation has at least two active layers / the decoder accepts",
 		Assumptions: []string{
-			"EVERY subset of the (stream < count, spatial) slots for count 1..4 (16 + 256 + 4096 + 65536) x every RID; temporal-layer patterns all-1 / all-4 / cyclic 1-2-3-4 (+ cyclic from 3) ; bitrate patterns small / cycling through the LEB128 size classes {0,1,127,128,16383,16384,2^21,2^28} / all 2^28; resolution off / on with sizes cycling through {1,2,256,65536} and frame rates {0,1,255}; the 65536-subset level uses 2 of the 3 bitrate patterns in the quick tier",
+			"EVERY subset of the (stream < count, spatial) slots for count 1..4 (16 + 256 + 4096 + 65536) x every RID; temporal-layer patterns all-1 / all-4 / cyclic 1-2-3-4 (+ cyclic from 3) ; bitrate patterns small / cycling through the LEB128 size classes {0,1,127,128,16383,16384,2^21,2^28} / all 2^28; resolution off / on with sizes cycling through {1,2,256,65536} and frame rates {0,1,255}",
 			"the empty allocation is only round-tripped (its layout is a special case of the specification)",
 			"decoder strings: nil, empty, all strings of 1-2 bytes, all 3-byte strings (thorough) / first byte x 40x40 symbols (quick); every truncation and single-byte replacement of 300 valid encodings",
 		},
@@ -104,11 +104,7 @@ func c19Encode(c *mc.Ctx) {
 	lo := c.Pick(1 << uint(4*minI(count, 2)))
 	mask := uint32(hi)<<8 | uint32(lo)
 	tlPat := c.Pick(4)
-	ratePats := 3
-	if count == 4 && !c.Thorough() {
-		ratePats = 2
-	}
-	ratePat := c.Pick(ratePats)
+	ratePat := c.Pick(3)
 	hasRes := c.Bool()
 	if mask == 0 {
 		hasRes = false // with no active layer there is no resolution record to carry the flag
@@ -171,7 +167,8 @@ func c19Invalid(c *mc.Ctx) {
 	case 5:
 		v.ActiveSpatialLayer[c.Pick(len(v.ActiveSpatialLayer))].TargetBitrates, what = nil, "zero temporal layers"
 	case 6:
-		v.ActiveSpatialLayer[c.Pick(len(v.ActiveSpatialLayer))].TargetBitrates, what = []int{1, 2, 3, 4, 5}, "five temporal layers"
+		n := mc.From(c, []int{5, 6, 255, 256, 257, 258, 260, 261, 513, 65537})
+		v.ActiveSpatialLayer[c.Pick(len(v.ActiveSpatialLayer))].TargetBitrates, what = make([]int, n), fmt.Sprintf("%d temporal layers", n)
 	case 7:
 		v.RTPStreamCount, v.RTPStreamID, what = 2, 1, "layer stream id not below the count"
 	case 8:
